@@ -177,7 +177,31 @@ class Recorder:
         self.ev('bstart', bid=bid, host=st['host'], types=[self.names.nb(t) for t in st['types']])
         ncb['starting'] = 1          # (not while the browser is being constructed: the replay of the cache to a new listener)
         try:
-            self.browsers[bid] = (AsyncServiceBrowser(h.zc, list(st['types']), listener=BL()), st['host'])
+            if st.get('one_shot'):
+                # the application uses handlers instead of a listener object: a one-shot handler ("tell me when the first service
+                # shows up") that unregisters itself from inside its callback, in front of the handler that keeps track
+                from zeroconf import ServiceStateChange
+                bl = BL()
+                holder: Dict[str, Any] = {}
+
+                def one_shot(zeroconf: Any, service_type: str, name: str, state_change: Any) -> None:
+                    b = holder.get('b')
+                    if b is not None and not holder.get('gone'):
+                        holder['gone'] = True
+                        b.service_state_changed.unregister_handler(one_shot)
+
+                def tracker(zeroconf: Any, service_type: str, name: str, state_change: Any) -> None:
+                    if state_change is ServiceStateChange.Added:
+                        bl.add_service(zeroconf, service_type, name)
+                    elif state_change is ServiceStateChange.Removed:
+                        bl.remove_service(zeroconf, service_type, name)
+                    else:
+                        bl.update_service(zeroconf, service_type, name)
+                br = AsyncServiceBrowser(h.zc, list(st['types']), handlers=[one_shot, tracker])
+                holder['b'] = br
+                self.browsers[bid] = (br, st['host'])
+            else:
+                self.browsers[bid] = (AsyncServiceBrowser(h.zc, list(st['types']), listener=BL()), st['host'])
         finally:
             ncb['starting'] = 0
 
@@ -266,6 +290,8 @@ def gen_link(rng: random.Random, sid: str, thorough: bool = False) -> dict:
     for b in range(nb):
         t = rng.choice([0, 50, 400, 1000, 2500, 5000, 9000])
         bst = {'op': 'bstart', 'bid': b + 1, 'host': rng.choice(hosts), 'types': rng.sample(types, rng.randint(1, len(types)))}
+        if rng.random() < 0.25:
+            bst['one_shot'] = True
         if rng.random() < 0.3:
             bst['raise_at'] = rng.choice([1, 1, 2, 3])
         evs.append((t, k, bst))
